@@ -131,6 +131,14 @@ func bidx(c *Ctx, rule string, funcs []*ssa.Function, exempt map[string]string) 
 				c.Holds(rule, fname(f), construct, "in bounds (LinBounds)", s.Instr.Pos())
 				continue
 			}
+			// one level of caller-established facts for unexported helpers
+			if cf, desc := callerFacts(c.P, f); len(cf) > 0 {
+				if lb.prove(s.Goals, s.Instr.Block(), cf, map[lvar]lin{}, 0) {
+					st.lin++
+					c.Holds(rule, fname(f), construct, "in bounds (LinBounds with facts proven at every call site: "+desc+")", s.Instr.Pos())
+					continue
+				}
+			}
 			st.unproved++
 			key := rule + "|" + fname(f) + "|" + construct
 			if why, ok := exempt[key]; ok {
@@ -185,4 +193,86 @@ func makeFromConfig(v ssa.Value) bool {
 		return true
 	}
 	return false
+}
+
+var callerFactCache = map[*ssa.Function][]cons{}
+var callerFactDesc = map[*ssa.Function]string{}
+var callSiteIndex map[*ssa.Function][]ssa.CallInstruction
+var addrTaken map[*ssa.Function]bool
+
+func buildCallIndex(p *Prog) {
+	if callSiteIndex != nil {
+		return
+	}
+	callSiteIndex = map[*ssa.Function][]ssa.CallInstruction{}
+	addrTaken = map[*ssa.Function]bool{}
+	for f := range p.AllFns {
+		if !inRepo(f) || f.Blocks == nil {
+			continue
+		}
+		instrsOf(f, func(_ *ssa.BasicBlock, in ssa.Instruction) {
+			if ci, ok := in.(ssa.CallInstruction); ok {
+				if sc := ci.Common().StaticCallee(); sc != nil {
+					callSiteIndex[sc] = append(callSiteIndex[sc], ci)
+				}
+				for _, a := range ci.Common().Args {
+					if fn, ok := a.(*ssa.Function); ok {
+						addrTaken[fn] = true
+					}
+				}
+				return
+			}
+			for _, op := range in.Operands(nil) {
+				if fn, ok := (*op).(*ssa.Function); ok {
+					addrTaken[fn] = true
+				}
+			}
+		})
+	}
+}
+
+// callerFacts: constant upper bounds on integer parameters of an unexported function that
+// every static call site in the repository establishes (proved in the caller's context).
+func callerFacts(p *Prog, f *ssa.Function) ([]cons, string) {
+	if cf, ok := callerFactCache[f]; ok {
+		return cf, callerFactDesc[f]
+	}
+	callerFactCache[f] = nil
+	if f.Object() == nil || f.Object().Exported() || f.Signature.Recv() != nil {
+		return nil, ""
+	}
+	buildCallIndex(p)
+	sites := callSiteIndex[f]
+	if len(sites) == 0 || addrTaken[f] {
+		return nil, ""
+	}
+	var out []cons
+	var descs []string
+	cands := []int64{0, 1, 3, 7, 8, 15, 16, 31, 32, 63, 64, 127, 255, 256, 511, 1023, 65535}
+	for i, prm := range f.Params {
+		if _, _, ok := intKind(prm.Type()); !ok {
+			continue
+		}
+		for _, k := range cands {
+			all := true
+			for _, cs := range sites {
+				caller := cs.Parent()
+				lb := &LB{p: p, f: caller, UsedContracts: map[string]bool{}}
+				arg := cs.Common().Args[i]
+				if !lb.prove([]cons{le(lb.linOf(arg), linConst(k)), ge(lb.linOf(arg), linConst(0))}, cs.Block(), nil, map[lvar]lin{}, 0) {
+					all = false
+					break
+				}
+			}
+			if all {
+				me := linVar(lvar{0, prm})
+				out = append(out, le(me, linConst(k)), ge(me, linConst(0)))
+				descs = append(descs, fmt.Sprintf("0 <= %s <= %d at %d call sites", prm.Name(), k, len(sites)))
+				break
+			}
+		}
+	}
+	callerFactCache[f] = out
+	callerFactDesc[f] = strings.Join(descs, "; ")
+	return out, callerFactDesc[f]
 }
